@@ -396,4 +396,58 @@ example : (hopTimesR rne53 (3 / 4) 3)[1]? = some (3 / 2) ∧ 1 + 1 < (hopTimesR 
 example : (1 : ℚ) ≤ (exNote 64 (3/2) 3).start ∧ (exNote 64 (3/2) 3).start < 2 ∧
     (exNote 64 (3/2) 3).start ≤ (exNote 64 (3/2) 3).end_ := by decide +kernel
 
+/-! ## the silence test in floats -/
+
+/-- `split_note_sequence_on_silence` decides with `start > R (last + gap)`.  For a double `start` (`R start = start`)
+that IS the exact-arithmetic statement "the onset comes after more than `gap` of silence", with one exception:
+the onset is the very double the sum `last + gap` rounds UP to (then the code does not split although the real
+silence exceeds the gap by less than the rounding of the sum). -/
+theorem silence_decision_float (hR : Rounding R) (start last gap : ℚ) (hs : R start = start) :
+    (start > R (last + gap) ↔ start > last + gap) ∨ (start = R (last + gap) ∧ last + gap < start) := by
+  by_cases h : start = R (last + gap) ∧ last + gap < start
+  · exact Or.inr h
+  · left
+    constructor
+    · intro h1
+      by_contra h2
+      have := hR.mono _ _ (not_lt.mp h2)
+      rw [hs] at this
+      exact absurd h1 (not_lt.mpr this)
+    · intro h1
+      have h2 := hR.mono _ _ h1.le
+      rw [hs] at h2
+      rcases h2.lt_or_eq with h3 | h3
+      · exact h3
+      · exact absurd ⟨h3.symm, h1⟩ h
+
+/-- every silence decision of the loop, hence every split point of `split_silence_times`, obeys it; in particular an
+onset that is NOT the rounded sum is a split point iff it really follows more than `gap` of silence -/
+theorem silence_decision_float_of_ne (hR : Rounding R) (start last gap : ℚ) (hs : R start = start)
+    (hne : start ≠ R (last + gap)) : start > R (last + gap) ↔ start > last + gap := by
+  rcases silence_decision_float hR start last gap hs with h | h
+  · exact h
+  · exact absurd h.1 hne
+
+def fxLast : ℚ := 3602879701896397 / 18014398509481984     -- 0.2
+def fxGap : ℚ := 3152519739159347 / 4503599627370496        -- 0.7
+def fxOnset : ℚ := 8106479329266893 / 9007199254740992      -- 0.9
+def fxLast' : ℚ := 3602879701896397 / 36028797018963968    -- 0.1
+def fxGap' : ℚ := 3602879701896397 / 18014398509481984     -- 0.2
+def fxOnset' : ℚ := 1351079888211149 / 4503599627370496    -- 0.30000000000000004
+
+/-- the reordered test `R (start - last) > gap` is NOT the same decision in float64: notes ending at 0.2, gap 0.7,
+onset 0.9 — the real silence 0.9 - 0.2 exceeds 0.7 (by 2^-54) and the code splits, the reordered test does not -/
+theorem silence_reordered_differs_rne53 :
+    rne53 fxOnset = fxOnset ∧ fxOnset > fxLast + fxGap ∧ fxOnset > rne53 (fxLast + fxGap) ∧
+    ¬ rne53 (fxOnset - fxLast) > fxGap := by decide +kernel
+
+/-- the exceptional case of `silence_decision_float` occurs in float64: last end 0.1, gap 0.2, onset
+0.30000000000000004 = the double 0.1 + 0.2 rounds up to; the real silence exceeds the gap, the code does not split -/
+theorem silence_rounded_sum_case_rne53 :
+    rne53 fxOnset' = fxOnset' ∧ fxOnset' = rne53 (fxLast' + fxGap') ∧ fxLast' + fxGap' < fxOnset' ∧
+    ¬ fxOnset' > rne53 (fxLast' + fxGap') := by decide +kernel
+
+example : (3 : ℚ) > rne53 (1 + 1) ↔ (3 : ℚ) > 1 + 1 :=
+  silence_decision_float_of_ne rounding_rne53 3 1 1 (by decide +kernel) (by decide +kernel)
+
 end NSV.C02
